@@ -53,6 +53,7 @@ def NPV(
 
 
 @xl.register()
+@xl.validate_args
 def PMT(
         rate: func_xltypes.XlNumber,
         nper: func_xltypes.XlNumber,
@@ -107,6 +108,7 @@ def PV(
 
 
 @xl.register()
+@xl.validate_args
 def SLN(
         cost: func_xltypes.XlNumber,
         salvage: func_xltypes.XlNumber,
